@@ -134,7 +134,7 @@ INT_FIELDS = ("a", "b", "c", "x", "y", "z", "w", "s", "p", "q", "t")
 def _override_sets(paths, tier):
     yield {}
     for p in paths:
-        for o in ("err", "boom", "null"):
+        for o in ("err", "err-sub", "boom", "null"):
             yield {p: o}
         last = p.split(".")[-1]
         if last in LIST_FIELDS:
